@@ -231,8 +231,9 @@ class Ev:
     MAX_UNROLL = 16
 
     def __init__(self, func, mod: ModuleCtx | None = None, *, call_hook=None, attr_hook=None,
-                 params: dict | None = None, unroll=True, self_name=None, ctypes=None, opaque=()):
+                 params: dict | None = None, unroll=True, self_name=None, ctypes=None, opaque=(), cdiv=False):
         self.func = func
+        self.cdiv = cdiv                   # C semantics for `/` between integer-typed operands (Cython, cdivision): a (bin CDiv a b) atom
         self.mod = mod or ModuleCtx(None)
         self.call_hook = call_hook
         self.attr_hook = attr_hook
@@ -897,7 +898,25 @@ class Ev:
             return negate(v)
         return P.atom(("invert", v))
 
+    _INT_CTYPES = ("int", "long", "unsigned int", "unsigned long", "unsigned", "size_t", "Py_ssize_t", "short", "long long", "unsigned long long",
+                   "const int", "const unsigned int", "int32_t", "int64_t", "uint32_t", "uint64_t")
+
+    def _is_int_expr(self, n) -> bool:
+        if isinstance(n, ast.Constant):
+            return type(n.value) is int
+        if isinstance(n, ast.Name):
+            return (self.ctypes.get(n.id) or "").strip() in self._INT_CTYPES
+        if isinstance(n, ast.UnaryOp) and isinstance(n.op, (ast.USub, ast.UAdd)):
+            return self._is_int_expr(n.operand)
+        if isinstance(n, ast.BinOp) and isinstance(n.op, (ast.Add, ast.Sub, ast.Mult, ast.Div, ast.FloorDiv, ast.Mod)):
+            return self._is_int_expr(n.left) and self._is_int_expr(n.right)
+        if isinstance(n, ast.Call) and isinstance(n.func, ast.Name) and n.func.id in ("abs", "max", "min") and n.args and not n.keywords:
+            return all(self._is_int_expr(a) for a in n.args)
+        return False
+
     def e_BinOp(self, n):
+        if self.cdiv and isinstance(n.op, ast.Div) and self._is_int_expr(n.left) and self._is_int_expr(n.right):
+            return P.atom(("bin", "CDiv", self.ev(n.left), self.ev(n.right)))
         return self.binop(type(n.op).__name__, self.ev(n.left), self.ev(n.right))
 
     def binop(self, op, a: P, b: P) -> P:
